@@ -1196,8 +1196,9 @@ impl<T: Serialize + for<'de> Deserialize<'de> + Clone + PartialEq + Send + Sync 
             }
         }
 
-        // Sort by timestamp (oldest first for replay)
-        wal_files.sort_by(|a, b| a.file_name().cmp(&b.file_name()));
+        // Replay order: rotated logs oldest first (by their numeric suffix),
+        // then the current log, which holds the newest records
+        wal_files.sort_by_key(|path| wal_replay_key(path));
 
         Ok(wal_files)
     }
@@ -1555,6 +1556,25 @@ fn load_or_create_hmac_key(state_dir: &Path) -> Result<Vec<u8>> {
     })?;
 
     Ok(key)
+}
+
+/// Numeric suffix of a rotated log `wal.<n>.wal`
+fn rotated_wal_number(path: &Path) -> Option<u64> {
+    let name = path.file_name()?.to_str()?;
+    name.strip_prefix("wal.")?
+        .strip_suffix(&format!(".{WAL_EXTENSION}"))?
+        .parse()
+        .ok()
+}
+
+/// Sort key giving the order in which log files must be replayed
+fn wal_replay_key(path: &Path) -> (u8, u64, std::ffi::OsString) {
+    let name = path.file_name().map(|n| n.to_os_string()).unwrap_or_default();
+    if name == std::ffi::OsStr::new(&format!("state.{WAL_EXTENSION}")) {
+        (1, 0, name)
+    } else {
+        (0, rotated_wal_number(path).unwrap_or(0), name)
+    }
 }
 
 /// Get current Unix timestamp
